@@ -48,6 +48,10 @@ def tasks(tier):
                    {"default": None, "per": {"T": "ctx", "U": "legacy"}})
         for e in RETRY_ENTRIES:
             out.append({"family": "stream", "cfg": cfg, "entry": e, "bound": bound, "weight": M})
+    for site, idx, e in itertools.product(["metric", "log"], ["always", 0, 1], RETRY_ENTRIES[:2]):
+        cfg = dict(M=3, alphabet=ALPHA, abort=True, handler="call", timeline=True, operation="opname",
+                   max_unknown=1, faults=[(site, idx, "RuntimeError")])
+        out.append({"family": "stream-hook-fault", "cfg": cfg, "entry": e, "bound": bound})
     # only one of the sinks attached (the timeline must not depend on a metric hook)
     for metric, log in [(False, True), (True, False), (False, False)]:
         cfg = dict(M=3, alphabet=ALPHA, abort=True, handler="call", timeline=True, metric=metric,
